@@ -13,15 +13,8 @@ class Base:
         self.__secret = v * 2
     def reveal(self):
         return self.__secret
-    @property
     def double(self):
         return self.v * 2
-    @staticmethod
-    def stat(x):
-        return x + 1
-    @classmethod
-    def make(cls, v):
-        return cls(v)
     def __repr__(self):
         return "Base(%r)" % self.v
 class Child(Base):
@@ -35,12 +28,12 @@ class Child(Base):
     def hello(self, greeting="hi"):
         return greeting + str(self.v)
 b = Base(3)
-c = Child.make.__func__(Child, 4) if False else Child(4, 5)
-out.append((b.reveal(), c.reveal(), b.double, c.double, Base.stat(1), c.stat(2)))
+c = Child(4, 5)
+out.append((b.reveal(), c.reveal(), b.double(), c.double()))
 out.append((Base.kind, Child.kind, Base.table))
 out.append(c.hello())
 out.append(c.hello(greeting="yo"))
-out.append(repr(Base.make(7)))
+out.append(repr(Base(7)))
 out.append(sorted(k for k in vars(c)))
 c.w += 1
 c.v = c.v + c.w
